@@ -364,6 +364,7 @@ func (c *Collector) Rapid(name string, quickN, thoroughN int, prop func(*rapid.T
 	flag.Set("rapid.checks", strconv.Itoa(per))
 	flag.Set("rapid.seed", strconv.FormatUint(seed, 10))
 	flag.Set("rapid.nofailfile", "true")
+	flag.Set("rapid.shrinktime", "20s")
 	before := c.evals()
 	c.t.Run(name, func(t *testing.T) {
 		rapid.Check(t, prop)
